@@ -77,7 +77,7 @@ def ledgers(draw, max_txns=10, with_pad=True, with_extras=True, min_txns=1, many
         used.add('Assets:Cash')
     for i in range(ntx):
         date += datetime.timedelta(days=draw(st.sampled_from([0, 0, 1, 1, 2, 7, 30])))
-        kind = draw(st.sampled_from(['simple', 'simple', 'multi', 'buy', 'buy', 'sell', 'sell', 'convert']))
+        kind = draw(st.sampled_from(['simple', 'simple', 'multi', 'buy', 'buy', 'sell', 'sell', 'convert', 'gift']))
         if kind == 'sell' and not lots:
             kind = 'buy'
         postings = []
@@ -128,6 +128,12 @@ def ledgers(draw, max_txns=10, with_pad=True, with_extras=True, min_txns=1, many
                 del lots[key]
             else:
                 lots[key] = have - units
+        elif kind == 'gift':
+            # units of a stock held without cost, in an account that may also hold lots of it at cost
+            stock = draw(st.sampled_from(STOCKS))
+            units = D(draw(st.integers(1, 9)))
+            postings = [{'account': draw(st.sampled_from(['Assets:Broker', 'Assets:Broker:Sub'])), 'units': (units, stock)},
+                        {'account': 'Income:Gifts' if 'Income:Gifts' not in closed else 'Equity:Opening', 'units': (-units, stock)}]
         else:
             units = D(draw(st.integers(1, 500)))
             rate = draw(st.sampled_from([D('0.90'), D('1.10'), D('1.25'), D('0.5')]))
